@@ -12,8 +12,8 @@ from sv import core
 from sv import registry as R
 
 PROPERTY = "C01"
-GEN = []
-PROPS = ["ScoresVerif/Props/C01.lean", "ScoresVerif/Props/C01Arr.lean"]
+GEN = ["Frames"]
+PROPS = ["ScoresVerif/Props/C01.lean", "ScoresVerif/Props/C01Arr.lean", "ScoresVerif/Props/C01Frames.lean"]
 DRIVER_DEPS = ["ScoresVerif.Driver.C01"]
 LEVEL = "proof"
 TRUSTED = ["xarray .mean(dim=…)/.sum(dim=…) reduce exactly the dims they are given (library behaviour, observed)",
